@@ -179,6 +179,12 @@ def variants(spec: dict, tier: str) -> t.Iterator[t.Tuple[str, dict]]:
         for m in (ml if n == '*' else [n]):
             sp['nodes'][m]['params'] = [p for p in sp['nodes'][m]['params'] if p[1] == 'plain']
         yield f'markless-{n}', sp
+    # every declared parameter keyword-only
+    sp = json.loads(json.dumps(spec))
+    for nd in sp['nodes'].values():
+        if not nd.get('generic'):
+            nd['kwonly'] = True
+    yield 'kwonly-params', sp
     # node classes without a `name` attribute (ids derived from module and class name): one node, and all nodes
     plain_cls = [n for n, nd in spec['nodes'].items() if not nd.get('generic') and not nd.get('instance_of')]
     for n in plain_cls[:1] + ['*']:
